@@ -14,17 +14,17 @@ demo_with="n/a"; demo_without="n/a"
 if [ -f seed_out/demo.rs ]; then
   cp seed_out/demo.rs tests/seed_demo.rs
   cargo test --offline --test seed_demo >/tmp/seed/$ID.demo_with.log 2>&1; rc1=$?
-  git stash -q -- src
+  git apply -R /tmp/seed/$ID.current.diff
   cargo test --offline --test seed_demo >/tmp/seed/$ID.demo_without.log 2>&1; rc2=$?
-  git stash pop -q
+  git apply /tmp/seed/$ID.current.diff
   rm -f tests/seed_demo.rs
   demo_with="exit $rc1: $(grep -E '^test result' /tmp/seed/$ID.demo_with.log | head -1)"
   demo_without="exit $rc2: $(grep -E '^test result' /tmp/seed/$ID.demo_without.log | head -1)"
 elif [ -f seed_out/demo.sh ]; then
   bash seed_out/demo.sh >/tmp/seed/$ID.demo_with.log 2>&1; rc1=$?
-  git stash -q -- src
+  git apply -R /tmp/seed/$ID.current.diff
   bash seed_out/demo.sh >/tmp/seed/$ID.demo_without.log 2>&1; rc2=$?
-  git stash pop -q
+  git apply /tmp/seed/$ID.current.diff
   demo_with="exit $rc1"; demo_without="exit $rc2"
 fi
 echo "$ID: demo with change: $demo_with"
@@ -42,7 +42,7 @@ try: meta=json.load(open(os.path.join(os.getcwd(),'seed_out/meta.json')))
 except Exception as e: meta={'note':'agent meta.json unreadable: %s'%e}
 meta['seed_id']=sid
 meta['confirmed_by_verify_seed']={'suite_with_change':suite,'demo_with_change':dw,'demo_without_change':dwo,
-  'commands':['cargo test --workspace --no-fail-fast --offline','cargo test --offline --test seed_demo (demo.rs copied to tests/seed_demo.rs), with and without the src change (git stash)']}
+  'commands':['cargo test --workspace --no-fail-fast --offline','cargo test --offline --test seed_demo (demo.rs copied to tests/seed_demo.rs), with and without the src change (git apply -R of the patch; never git stash, which is shared between worktrees)']}
 json.dump(meta,open(os.path.join(out,'meta.json'),'w'),indent=1)
 PY
   echo "$ID: CONFIRMED -> $OUT"
